@@ -292,7 +292,10 @@ fn op_strategy() -> BoxedStrategy<OpDesc> {
         // many test cases / long inputs: whatever is buffered, chunked or cached beyond some size must not
         // make the outcome depend on anything but the arguments and the generator
         1 => (2usize..8, prop::sample::select(vec![65usize, 70, 130, 257]), any::<u64>()).prop_map(|(n, m, s)| {
-            let results = (0..n).map(|i| (0..m).map(|j| (crate::splitmix(s ^ ((i * 1000 + j) as u64)) % 4) as i64).collect()).collect();
+            // in half of these one individual lacks its last results, so that some selections fail with
+            // MissingTestCase part-way (an error path must leave nothing behind either)
+            let short = if s % 2 == 0 { Some((s / 2) as usize % n) } else { None };
+            let results = (0..n).map(|i| (0..if short == Some(i) { m - 1 - (s as usize / 7) % 3 } else { m }).map(|j| (crate::splitmix(s ^ ((i * 1000 + j) as u64)) % 4) as i64).collect()).collect();
             OpDesc::Select { spec: Spec::Lexicase(m), results }
         }),
         1 => (any::<bool>(), 0.0f32..=1.0, prop::collection::vec(any::<bool>(), 200..700)).prop_map(|(bitstring, rate, genome)| OpDesc::FlipRate { bitstring, rate, genome }),
